@@ -17,6 +17,19 @@ var c13CatalogCopy = map[string]string{
 }
 
 func c13(c *Ctx) {
+	// a transaction takes its catalog at NewTx and its data snapshots lazily: what keeps the two consistent is the
+	// mandatory-MVCC floor (the last catalog-changing tx), applied to EVERY snapshot a transaction takes, read-only or
+	// not (analysis shared with C05.4)
+	if f := c.mustFn("C13.7/data-snapshot-not-older-than-catalog", otxT+"snap"); f != nil {
+		ns := 0
+		for _, in := range sites(f, callTo(storeT+"SnapshotMustIncludeTxIDWithRenewalPeriod")) {
+			ns++
+			c05FloorIsMax(c, "C13.7/data-snapshot-not-older-than-catalog", f, in, callOf(in).Args[3])
+		}
+		if ns == 0 {
+			c.undecided("C13.7/data-snapshot-not-older-than-catalog", "floor", "OngoingTx.snap no longer takes its snapshot through SnapshotMustIncludeTxIDWithRenewalPeriod")
+		}
+	}
 	// ---- C13.1 one commit; cancel on failure / rollback / session end ---------------------------------------------
 	r := "C13.1/one-commit"
 	n := 0
